@@ -36,233 +36,44 @@ def run(model: Model, rep: Report, tier: str) -> None:
         "identity is the paper's theorem."
     )
     rep.trusted_base = ["Tian & Pearl 2003, Lemmas 1, 3, 4 and IDENTIFY", "C14", "C13 (Sum.safe, Product.safe, Fraction)"]
-    rep.floors = {"R17.1": 4, "R17.2": 1, "R17.3": 3, "R17.4": 2, "R17.5": 2, "R17.6": 5}
-    sa = SetAlg()
-    n = var("%n")
-    # ---------------------------------------------------------------- R17.2 Lemma 3
-    f = model.func(f"{TI}.compute_ancestral_set_q_value")
-    ev = _ev(model)
-    A, T, Q, topo = typed(ev, "ancestral_set", ("frozenset", V)), typed(ev, "subgraph_variables", ("frozenset", V)), typed(ev, "subgraph_probability", E), typed(ev, "graph_topo", ("list", V))
-    rets = return_paths(ev.run(f, {"ancestral_set": A, "subgraph_variables": T, "subgraph_probability": Q, "graph_topo": topo}))
-    problems = []
-    if len(rets) != 1 or not (rets[0].value[0] == "call" and str(rets[0].value[1]).endswith("Sum.safe")):
-        problems.append("Lemma 3 must be a single sum of Q[T]")
-    else:
-        kw = kwargs_of(rets[0].value)
-        if kw.get("expression") != Q:
-            problems.append("the summand is not the given Q[T]")
-        want = f_and(sa.member(n, topo), sa.member(n, T), f_not(sa.member(n, A)))
-        eq, row, _ = compare(sa.member(n, kw.get("ranges")), want)
-        if not eq:
-            problems.append(f"the sum does not range over exactly T ∖ A: differs for a variable with [{short(show_row(row), 200)}]")
-    (rep.refuted if problems else rep.proven)("R17.2", construct(f, "sum-over-T-minus-A"), "; ".join(problems), loc(f))
-    # ---------------------------------------------------------------- R17.3 Lemma 4
-    f = model.func(f"{TI}.compute_q_value_of_variables_with_low_topological_ordering_indices")
-    ev = _ev(model)
-    v_, Qh, tp = typed(ev, "vertex", V), typed(ev, "graph_probability", E), typed(ev, "topo", ("list", V))
-    rets = return_paths(ev.run(f, {"vertex": v_, "graph_probability": Qh, "topo": tp}))
-    want = ("call", "y0.dsl.Sum.safe", (), (("expression", Qh), ("ranges", ("slice", tp, ("op", "+", ("meth", tp, "index", (v_,), ()), const(1)), NONE)), ("simplify", const(False))))
-    ok = len(rets) == 1 and rets[0].value == want
-    (rep.proven if ok else rep.refuted)("R17.3", construct(f, "sum-over-successors"), "" if ok else
-                                        "Q[H^(i)] must be the sum of Q[H] over exactly the variables after v_i in the order: " + (short(show(rets[0].value), 160) if rets else "no path"), loc(f))
-    ev = _ev(model)
-    rets = return_paths(ev.run(f, {"vertex": NONE, "graph_probability": Qh, "topo": tp}))
-    ok = len(rets) == 1 and rets[0].value[0] in ("rec", "new") and str(rets[0].value[1]).endswith(".One")
-    (rep.proven if ok else rep.refuted)("R17.3", construct(f, "empty-prefix-is-one"), "" if ok else "Q[H^(0)] must be One", loc(f))
-    LOW = f"{TI}.compute_q_value_of_variables_with_low_topological_ordering_indices"
-    f = model.func(f"{TI}.compute_c_factor_marginalizing_over_topological_successors")
-    ev = _ev(model, prims={LOW})
-    D, Qh, tp = typed(ev, "district", ("set", V)), typed(ev, "graph_probability", E), typed(ev, "topo", ("list", V))
-    rets = return_paths(ev.run(f, {"district": D, "graph_probability": Qh, "topo": tp}))
-    problems = []
-    if len(rets) != 1 or not (rets[0].value[0] == "call" and str(rets[0].value[1]).endswith("Product.safe")):
-        problems.append("Lemma 4 must be one product over the district")
-    else:
-        seq = kwargs_of(rets[0].value).get("expressions")
-        pieces = []
-        while seq[0] == "accum":
-            pieces.append((seq[3], seq[4]))
-            seq = seq[2]
-        seen = set()
-        for payload, gens in pieces:
-            (pat, it, conds), = gens
-            vx = [x for x in subterms(pat) if x[0] == "var"][-1]
-            core = it
-            while core[0] == "call" and core[2]:
-                core = core[2][0]
-            if core != D:
-                problems.append("the product does not range over the district")
-            idx = ("meth", tp, "index", (vx,), ())
-            low = lambda i: ("call", LOW, (), (("graph_probability", Qh), ("topo", tp), ("vertex", ("index", tp, i))))  # noqa: E731
-            item = payload[1][0]
-            first = any(c == ("eq", idx, const(0)) for c in conds)
-            if first:
-                seen.add("first")
-                if item != low(idx):
-                    problems.append("for the first variable of the order the factor must be Q[H^(1)] itself")
-            else:
-                seen.add("rest")
-                if not (item[0] == "rec" and item[1].endswith(".Fraction")):
-                    problems.append("a factor is not a Fraction")
-                else:
-                    fl = dict(item[2])
-                    if fl.get("numerator") == low(("op", "-", idx, const(1))) and fl.get("denominator") == low(idx):
-                        problems.append("numerator and denominator are exchanged (Q[H^(i)] / Q[H^(i-1)] is required)")
-                    elif fl.get("numerator") != low(idx):
-                        problems.append("the numerator must be Q[H^(i)] (sum over the variables after v_i)")
-                    elif fl.get("denominator") != low(("op", "-", idx, const(1))):
-                        problems.append("the denominator must be Q[H^(i-1)] (the previous vertex of the order)")
-        if seen != {"first", "rest"}:
-            problems.append("the two cases (first vertex / later vertices) are not both present")
-    (rep.refuted if problems else rep.proven)("R17.3", construct(f, "ratio-of-consecutive-marginals"), "; ".join(sorted(set(problems))), loc(f))
-    # ---------------------------------------------------------------- R17.4 Lemma 1
-    f = model.func(f"{TI}.compute_c_factor_conditioning_on_topological_predecessors")
-    ev = _ev(model)
-    D, Qp, tp = typed(ev, "district", ("set", V)), typed(ev, "graph_probability", ("cls", "y0.dsl.Probability")), typed(ev, "topo", ("list", V))
-    rets = return_paths(ev.run(f, {"district": D, "graph_probability": Qp, "topo": tp}))
-    par = ("attr", ("attr", Qp, "distribution"), "parents")
-    for r in rets:
-        pop = any(c == ("isinstance", Qp, ("y0.dsl.PopulationProbability",)) for c in r.conds)
-        role = "population" if pop else "plain"
-        problems = []
-        v = r.value
-        seq = kwargs_of(v).get("expressions") if v[0] == "call" and str(v[1]).endswith("Product.safe") else None
-        if seq is None or seq[0] != "accum" or sa.strip(seq[4][0][1]) != D:
-            problems.append("Lemma 1 must be a product of one factor per district variable")
-        else:
-            vx = seq[4][0][0]
-            item = seq[3][1][0]
-            cond_set = None
-            if pop:
-                if not (item[0] == "rec" and item[1].endswith("PopulationProbability") and dict(item[2]).get("population") == ("attr", Qp, "population")):
-                    problems.append("the population tag of Q is not carried to the factors")
-                else:
-                    d = dict(item[2]).get("distribution")
-                    fl = dict(d[2]) if d[0] == "rec" else {}
-                    if fl.get("children") != ("tuplelit", (vx,)):
-                        problems.append("a factor does not have the single child v")
-                    cond_set = fl.get("parents")
-            else:
-                if not (item[0] == "call" and item[1] == "y0.dsl.P" and item[2][0][0] == "op" and item[2][0][1] == "|" and item[2][0][2] == vx):
-                    problems.append("a factor is not P(v | ...)")
-                else:
-                    cond_set = item[2][0][3]
-            if cond_set is not None:
-                want = f_or(sa.member(n, par), sa.member(n, ("slice", tp, NONE, ("meth", tp, "index", (vx,), ()))))
-                eq, row, _ = compare(sa.member(n, cond_set), want)
-                if not eq:
-                    problems.append(f"v must be conditioned on exactly (conditioning variables of Q) ∪ (its predecessors in the order): differs for [{short(show_row(row), 200)}]")
-        (rep.refuted if problems else rep.proven)("R17.4", construct(f, f"factor:{role}"), "; ".join(problems), loc(f, r.line))
-    # ---------------------------------------------------------------- R17.5 dispatch
-    L4 = f"{TI}.compute_c_factor_marginalizing_over_topological_successors"
-    L1 = f"{TI}.compute_c_factor_conditioning_on_topological_predecessors"
-    f = model.func(f"{TI}.compute_c_factor")
-    ev = _ev(model, prims={L4, L1})
-    D, SV, Qs, gt = typed(ev, "district", ("set", V)), typed(ev, "subgraph_variables", ("set", V)), typed(ev, "subgraph_probability", E), typed(ev, "graph_topo", ("list", V))
-    paths = ev.run(f, {"district": D, "subgraph_variables": SV, "subgraph_probability": Qs, "graph_topo": gt})
-    problems = []
-    tp_ok = True
-    for p in return_paths(paths):
-        v = p.value
-        kw = kwargs_of(v)
-        composite = any(c[0] == "isinstance" and c[1] == Qs and {x.split(".")[-1] for x in c[2]} == {"Fraction", "Product", "Sum"} for c in p.conds)
-        if v[0] == "call" and v[1] == L4:
-            if not composite:
-                problems.append("Lemma 4 is used for something other than Fraction/Product/Sum")
-        elif v[0] == "call" and v[1] == L1:
-            if not any(c == ("isinstance", Qs, ("y0.dsl.Probability",)) for c in p.conds):
-                problems.append("Lemma 1 is used for something other than a Probability")
-        else:
-            problems.append("unexpected result " + short(show(v), 100))
-            continue
-        if kw.get("district") != D or kw.get("graph_probability") != Qs:
-            problems.append("district / distribution are not passed through")
-        t = kw.get("topo")
-        x = var("%x")
-        want = f_and(sa.member(x, gt), sa.member(x, SV))
-        ok_t = t is not None and t[0] == "comp" and t[1] == "list" and len(t[3]) == 1 and t[2] == t[3][0][0] and t[3][0][1] == gt and compare(sa.member(x, t), want)[0]
-        if not ok_t:
-            tp_ok = False
-    (rep.refuted if problems else rep.proven)("R17.5", construct(f, "dispatch"), "; ".join(sorted(set(problems))), loc(f))
-    (rep.proven if tp_ok else rep.refuted)("R17.5", construct(f, "restricted-order"), "" if tp_ok else
-                                           "the order handed to the lemmas must be the graph's order filtered to the sub-graph's variables, ALL of them (Lemma 4 sums over the trailing variables of H too)", loc(f))
-    # ---------------------------------------------------------------- R17.1 IDENTIFY
-    ANC = f"{TI}.compute_ancestral_set_q_value"
-    CF = f"{TI}.compute_c_factor"
+    rep.floors = {"R17.1": 2, "R17.2": 1, "R17.3": 2, "R17.4": 1, "R17.5": 1, "R17.6": 5}
+    from ..refcmp import load_reference, run_table
+    from .common import graph_rewrite, rewriter
+
+    load_reference(model, "yvref.c17", "c17_ref.py")
+    sa = SetAlg(rewriter(graph_rewrite))
+    G = ("cls", NXMG)
+    FS = ("frozenset", V)
+    L = ("list", V)
+    IT = ("iter", V)
+    H = {f"{TI}.{x}" for x in (
+        "compute_ancestral_set_q_value", "compute_c_factor", "compute_c_factor_conditioning_on_topological_predecessors",
+        "compute_c_factor_marginalizing_over_topological_successors", "compute_q_value_of_variables_with_low_topological_ordering_indices",
+        "identify_district_variables")}
+
+    def mk(model_, prims):
+        return lambda: _ev(model_, set(prims) | {"y0.dsl.Fraction"})
+
+    table = [
+        ("R17.2", f"{TI}.compute_ancestral_set_q_value", "lemma_3", {"ancestral_set": FS, "subgraph_variables": FS, "subgraph_probability": E, "graph_topo": L}, H,
+         "sum-over-T-minus-A", "Lemma 3: Q[A] = Σ_{T ∖ A} Q[T], the summed variables taken from (and ordered by) the graph's order"),
+        ("R17.3", f"{TI}.compute_q_value_of_variables_with_low_topological_ordering_indices", "q_of_prefix", {"vertex": ("union", (V, "none")), "graph_probability": E, "topo": L}, H,
+         "sum-over-later-variables", "Q[H^(i)] = Σ_{variables strictly after v_i} Q[H]; Q[H^(0)] = 1; a vertex outside the order is refused"),
+        ("R17.3", f"{TI}.compute_c_factor_marginalizing_over_topological_successors", "lemma_4", {"district": IT, "graph_probability": E, "topo": L}, H,
+         "ratio-of-consecutive-marginals", "Lemma 4: Π over the district of Q[H^(i)] / Q[H^(i-1)] with i the vertex's position in the order; the first vertex of the order has no denominator"),
+        ("R17.4", f"{TI}.compute_c_factor_conditioning_on_topological_predecessors", "lemma_1", {"district": IT, "graph_probability": ("cls", "y0.dsl.Probability"), "topo": L}, H,
+         "product-of-conditionals", "Lemma 1: Π over the district of P(v | what Q was conditioned on ∪ predecessors of v in the order), same population tag"),
+        ("R17.5", f"{TI}.compute_c_factor", "c_factor", {"district": IT, "subgraph_variables": IT, "subgraph_probability": E, "graph_topo": L}, H,
+         "dispatch", "Lemma 4 for Fraction/Product/Sum, Lemma 1 for a plain probability, over the graph's order restricted to the sub-graph's variables"),
+        ("R17.1", f"{TI}.identify_district_variables", "identify", {"input_variables": FS, "input_district": FS, "district_probability": E, "graph": G, "topo": L}, H,
+         "identify-cases", "IDENTIFY: A = An(C) in G[T]; A = C -> Lemma 3 on Q[T]; A = T -> FAIL; otherwise recurse on (C, T', Q[T']) with T' the district of G[A] that "
+         "contains C and Q[T'] the c-factor of T' in Q[A]; Q[A] is Lemma 3 of a compound Q[T], else the joint over A keeping Q[T]'s conditioning variables and population"),
+    ]
+    run_table(model, rep, table, "yvref.c17", mk, sa, construct=construct, loc=loc)
     f = model.func(f"{TI}.identify_district_variables")
-    ev = _ev(model, prims={ANC, CF})
-    C, T, Q, G, tp = (typed(ev, "input_variables", ("frozenset", V)), typed(ev, "input_district", ("frozenset", V)), typed(ev, "district_probability", E),
-                      typed(ev, "graph", ("cls", NXMG)), typed(ev, "topo", ("list", V)))
-    paths = ev.run(f, {"input_variables": C, "input_district": T, "district_probability": Q, "graph": G, "topo": tp})
-    GT = ("meth", G, "subgraph", (), (("vertices", T),))
-    A = ("meth", GT, "ancestors_inclusive", (), (("sources", C),))
-    eqAC = sa.eq_atom(("setof", A, "frozen"), C)
-    eqAT = sa.eq_atom(("setof", A, "frozen"), T)
-
-    def has(p, fm, neg=False):
-        g = f_and(*[sa.cond(c) for c in p.conds])
-        return compare(f_and(g, fm if neg else f_not(fm)), False)[0]
-
-    rets = return_paths(paths)
-    # normalise set(...)/frozenset(...) wrappers around A in conditions
-    def guard(p):
-        from ..terms import mapterm
-        cs = [mapterm(c, lambda s: ("setof", A, "frozen") if s[0] == "setof" and s[1] == A else None) for c in p.conds]
-        return f_and(*[sa.cond(c) for c in cs])
-
-    def g_implies(p, fm):
-        return compare(f_and(guard(p), f_not(fm)), False)[0]
-
-    l3 = [p for p in rets if p.value[0] == "call" and p.value[1] == ANC]
-    ok = len(l3) == 1 and g_implies(l3[0], eqAC)
-    if ok:
-        kw = kwargs_of(l3[0].value)
-        ok = sa.strip(kw.get("ancestral_set")) == A and kw.get("subgraph_variables") == T and kw.get("subgraph_probability") == Q and kw.get("graph_topo") == tp
-    (rep.proven if ok else rep.refuted)("R17.1", construct(f, "case-A=C"), "" if ok else "when An(C) in G[T] equals C the answer must be Lemma 3 applied to (A, T, Q[T])", loc(f))
-    fail = [p for p in rets if p.value == NONE]
-    ok = len(fail) == 1 and g_implies(fail[0], f_and(f_not(eqAC), eqAT))
-    (rep.proven if ok else rep.refuted)("R17.1", construct(f, "case-A=T"), "" if ok else "FAIL must be returned exactly when A = T (tested after A = C)", loc(f))
-    recs = [p for p in rets if p.value[0] == "recurse"]
-    problems = []
-    if len(recs) < 2:
-        problems.append("the recursive case is missing for some kind of Q[T]")
-    arms = set()
-    for p in recs:
-        kw = dict(p.value[3])
-        if not g_implies(p, f_and(f_not(eqAC), f_not(eqAT))):
-            problems.append("the recursion is not guarded by C ⊊ A ⊊ T")
-        if kw.get("input_variables") != C or kw.get("graph") != G or kw.get("topo") != tp:
-            problems.append("C, G or the order change in the recursion")
-        Tp = kw.get("input_district")
-        dists = [s for s in subterms(Tp) if s[0] == "meth" and s[2] == "districts"]
-        if not (dists and dists[0][1][0] == "meth" and dists[0][1][2] == "subgraph" and dists[0][1][1] == G and any(s == A for s in subterms(dists[0][1]))):
-            problems.append("T' is not a district of G[A]")
-        if not any(s[0] == "subset" and s[1] == C for s in subterms(Tp)):
-            problems.append("T' is not chosen as the district that contains C")
-        QTp = kw.get("district_probability")
-        if not (QTp[0] == "call" and QTp[1] == CF):
-            problems.append("Q[T'] is not computed by the c-factor routine")
-            continue
-        k2 = kwargs_of(QTp)
-        if k2.get("district") != Tp or sa.strip(k2.get("subgraph_variables")) != A or k2.get("graph_topo") != tp:
-            problems.append("the c-factor is not computed for T' inside A")
-        QA = k2.get("subgraph_probability")
-        composite = any(c[0] == "isinstance" and c[1] == Q and {x.split(".")[-1] for x in c[2]} == {"Fraction", "Product", "Sum"} for c in p.conds)
-        if composite:
-            arms.add("composite")
-            k3 = kwargs_of(QA)
-            if not (QA[0] == "call" and QA[1] == ANC and sa.strip(k3.get("ancestral_set")) == A and k3.get("subgraph_variables") == T and k3.get("subgraph_probability") == Q):
-                problems.append("for a composite Q[T], Q[A] must be Lemma 3 of Q[T]")
-        else:
-            pop = any(c == ("isinstance", Q, ("y0.dsl.PopulationProbability",)) for c in p.conds)
-            arms.add("population" if pop else "plain")
-            if not any(s in (("attr", ("attr", Q, "distribution"), "parents"), ("attr", Q, "parents")) for s in subterms(QA)):
-                problems.append(("population-tagged" if pop else "plain") + " Q[T] = P(T | W): the joint over A built for Q[A] drops the conditioning variables W of Q[T] (Q[A] = P(A | W) is required)")
-            if pop and not any(s == ("attr", Q, "population") for s in subterms(QA)):
-                problems.append("the population tag of Q[T] is lost")
-    if recs and arms != {"composite", "population", "plain"}:
-        problems.append(f"arms found: {sorted(arms)}")
-    (rep.refuted if problems else rep.proven)("R17.1", construct(f, "case-recursive"), "; ".join(sorted(set(problems))), loc(f))
+    ev = _ev(model, H)
+    paths = ev.run(f, {"input_variables": typed(ev, "input_variables", FS), "input_district": typed(ev, "input_district", FS),
+                       "district_probability": typed(ev, "district_probability", E), "graph": typed(ev, "graph", G), "topo": typed(ev, "topo", L)})
     # ---------------------------------------------------------------- R17.6 the routines are functions of their arguments
     from ..effects import Effects
     eff = Effects(model)
